@@ -227,6 +227,8 @@ pub struct Run {
     pub enabled_known: Vec<String>,
     pub replay: Option<Vec<String>>,
     pub replay_done: bool,
+    /// --locate config plan op ai bi ci aux: print the state at these plan indices
+    pub locate: Option<Vec<String>>,
     pub only_config: Option<String>,
     pub notes: Vec<String>,
     pub extra: BTreeMap<String, J>,
@@ -249,6 +251,7 @@ impl Run {
         let mut replay = None;
         let mut only_config = None;
         let mut deadline_s = 0.0;
+        let mut locate = None;
         let mut i = 1;
         while i < args.len() {
             match args[i].as_str() {
@@ -274,6 +277,10 @@ impl Run {
                     replay = Some(args[i + 1..].to_vec());
                     break;
                 }
+                "--locate" => {
+                    locate = Some(args[i + 1..].to_vec());
+                    break;
+                }
                 other => {
                     eprintln!("unknown argument {}", other);
                     std::process::exit(2);
@@ -285,6 +292,7 @@ impl Run {
             deadline_s = if tier == Tier::Quick { 240.0 } else { 3.0 * 3600.0 };
         }
         silence_panics();
+        crumbs::install(if replay.is_some() { 60 } else { 180 });
         let debug = cfg!(debug_assertions);
         Run {
             property: property.to_string(),
@@ -303,6 +311,7 @@ impl Run {
             enabled_known,
             replay,
             replay_done: false,
+            locate,
             only_config,
             notes: Vec::new(),
             extra: BTreeMap::new(),
@@ -331,6 +340,7 @@ impl Run {
             enabled_known: Vec::new(),
             replay: None,
             replay_done: false,
+            locate: None,
             only_config: None,
             notes: Vec::new(),
             extra: BTreeMap::new(),
@@ -347,6 +357,9 @@ impl Run {
     pub fn wants(&self, config: &str) -> bool {
         if let Some(r) = &self.replay {
             return r[0] == config;
+        }
+        if let Some(l) = &self.locate {
+            return l[0] == config;
         }
         match &self.only_config {
             Some(c) => c == config,
@@ -399,6 +412,18 @@ impl Run {
             self.replay_one::<T, Z>(ops, &r);
             return;
         }
+        if let Some(l) = self.locate.clone() {
+            // l = [config, plan label, op, ai, bi, ci, aux]
+            if l[1] == plan.label {
+                let g = |v: &Vec<T>, k: &str| -> String {
+                    let i: usize = k.parse().unwrap_or(0);
+                    v.get(i).or(plan.a.first()).map(|x| x.hex()).unwrap_or_default()
+                };
+                println!("LOCATED|{}|{}|{}|{}|{}|{}", config, l[2], g(&plan.a, &l[3]), g(&plan.b, &l[4]), g(&plan.c, &l[5]), l[6]);
+                self.replay_done = true;
+            }
+            return;
+        }
         if self.over_deadline() {
             self.cap_hit = true;
             self.notes.push(format!("deadline reached before {} {}", config, plan.label));
@@ -430,6 +455,7 @@ impl Run {
                     let mut st: Vec<OpStat> = vec![OpStat::default(); ops.len()];
                     let mut viols: Vec<Violation> = Vec::new();
                     let mut capped = false;
+                    let slot = crumbs::claim(&config, &plan.label);
                     let step = |oi: usize, regs: &[T; 3], ctx: &Ctx<Z>, st: &mut Vec<OpStat>, viols: &mut Vec<Violation>| {
                         let op = &ops[oi];
                         let e = (op.spec)(ctx);
@@ -503,6 +529,7 @@ impl Run {
                                 for &oi in &ops1 {
                                     for &x in auxv(ops[oi].aux) {
                                         ctx.aux = x;
+                                        crumbs::at(slot, ops[oi].name, ai, 0, 0, x);
                                         step(oi, &regs, &ctx, &mut st, &mut viols);
                                     }
                                 }
@@ -519,6 +546,7 @@ impl Run {
                                     }
                                     for &x in auxv(ops[oi].aux) {
                                         ctx.aux = x;
+                                        crumbs::at(slot, ops[oi].name, ai, bi, 0, x);
                                         step(oi, &regs, &ctx, &mut st, &mut viols);
                                     }
                                 }
@@ -528,6 +556,7 @@ impl Run {
                                         for &oi in &ops3 {
                                             for &x in auxv(ops[oi].aux) {
                                                 ctx.with(&zc[ci], x);
+                                                crumbs::at(slot, ops[oi].name, ai, bi, ci, x);
                                                 step(oi, &regs, &ctx, &mut st, &mut viols);
                                             }
                                         }
@@ -540,6 +569,7 @@ impl Run {
                             }
                         }
                     }
+                    crumbs::release(slot);
                     results.lock().unwrap().push((st, viols, capped));
                 });
             }
@@ -631,7 +661,7 @@ impl Run {
 
     /// write the partial evidence of this profile and replay files; returns the exit code
     pub fn finish(&mut self) -> i32 {
-        if self.replay.is_some() {
+        if self.replay.is_some() || self.locate.is_some() {
             if !self.replay_done {
                 println!("replay target not found in this binary");
                 return 2;
@@ -1016,7 +1046,7 @@ impl Run {
         }
     }
     pub fn in_replay(&self) -> bool {
-        self.replay.is_some()
+        self.replay.is_some() || self.locate.is_some()
     }
     /// print the verdict of a replayed custom transition
     pub fn replay_verdict<Z: ZNum>(&self, e: &Expect<Z>, o: &Obs<Z>) {
@@ -1115,7 +1145,7 @@ impl Run {
             }
             return;
         }
-        if !self.wants_prefix(&config) {
+        if self.locate.is_some() || !self.wants_prefix(&config) {
             return;
         }
         if self.over_deadline() {
@@ -1189,5 +1219,226 @@ pub fn same<Z: ZNum>(a: &dyn Fn() -> Obs<Z>, b: &dyn Fn() -> Obs<Z>) -> Obs<Z> {
         Obs::B(true)
     } else {
         Obs::S(format!("trait form gives {} but the inherent form gives {}", oa.show(), ob.show()))
+    }
+}
+
+/// Closure pass ("start from non-initial states"): the values the MODEL produces from the plan's
+/// initial states (results of every value-returning operation of the table), as new register contents.
+/// Deduplicated on the byte image; bounded by `cap` (evenly thinned in sorted order, so the choice is
+/// deterministic).  Returns (values not already in the plan, number found before thinning).
+pub fn closure_values<T: Subj, Z: ZNum>(ops: &[Op<T, Z>], plan: &Plan<T>, pairs_side: usize, cap: usize) -> (Vec<Vec<u8>>, usize) {
+    let ti = T::ti();
+    let nb = T::bytes();
+    let mut seen: HashSet<Vec<u8>> = HashSet::new();
+    let initial: HashSet<Vec<u8>> = plan.a.iter().map(|x| x.le()).collect();
+    let za: Vec<Z> = plan.a.iter().take(pairs_side).map(|x| x.z()).collect();
+    let zb: Vec<Z> = plan.b.iter().take(pairs_side).map(|x| x.z()).collect();
+    let zero = Z::zi(0);
+    let mut add = |z: &Z| {
+        let b = ti.wrap(z).to_le_bytes_wrapped(nb);
+        if !initial.contains(&b) {
+            seen.insert(b);
+        }
+    };
+    let empty = vec![0u64];
+    for a in &za {
+        for b in &zb {
+            let mut ctx = Ctx::new(ti, [a, b, &zero], 0, false);
+            for op in ops {
+                if op.arity > 2 {
+                    continue;
+                }
+                let auxs = plan.aux.get(&op.aux).unwrap_or(&empty);
+                for &x in auxs.iter().take(8) {
+                    ctx.aux = x;
+                    match (op.spec)(&ctx) {
+                        Expect::Is(Obs::V(z)) | Expect::Is(Obs::VF(z, _)) | Expect::Is(Obs::OV(Some(z))) => add(&z),
+                        Expect::Is(Obs::P(z1, z2)) => {
+                            add(&z1);
+                            add(&z2);
+                        }
+                        _ => {}
+                    }
+                }
+            }
+        }
+    }
+    let found = seen.len();
+    let mut v: Vec<Vec<u8>> = seen.into_iter().collect();
+    v.sort();
+    if v.len() > cap {
+        let step = v.len() as f64 / cap as f64;
+        v = (0..cap).map(|i| v[(i as f64 * step) as usize].clone()).collect();
+    }
+    (v, found)
+}
+
+// =============================================================================================
+// Breadcrumbs: where each worker thread currently is, so that a crash that cannot be caught (a
+// non-unwinding panic aborts the process, a stack overflow, an illegal instruction) or a hang inside
+// the code under test is attributed to one transition instead of being lost as a machinery error.
+// =============================================================================================
+pub mod crumbs {
+    use std::sync::atomic::{AtomicBool, AtomicU64, AtomicUsize, Ordering::Relaxed};
+
+    pub const SLOTS: usize = 64;
+    pub struct Slot {
+        pub busy: AtomicBool,
+        pub cfg_ptr: AtomicUsize,
+        pub cfg_len: AtomicUsize,
+        pub plan_ptr: AtomicUsize,
+        pub plan_len: AtomicUsize,
+        pub op_ptr: AtomicUsize,
+        pub op_len: AtomicUsize,
+        pub ai: AtomicU64,
+        pub bi: AtomicU64,
+        pub ci: AtomicU64,
+        pub aux: AtomicU64,
+        pub tick: AtomicU64,
+    }
+    #[allow(clippy::declare_interior_mutable_const)]
+    const EMPTY: Slot = Slot {
+        busy: AtomicBool::new(false),
+        cfg_ptr: AtomicUsize::new(0),
+        cfg_len: AtomicUsize::new(0),
+        plan_ptr: AtomicUsize::new(0),
+        plan_len: AtomicUsize::new(0),
+        op_ptr: AtomicUsize::new(0),
+        op_len: AtomicUsize::new(0),
+        ai: AtomicU64::new(0),
+        bi: AtomicU64::new(0),
+        ci: AtomicU64::new(0),
+        aux: AtomicU64::new(0),
+        tick: AtomicU64::new(0),
+    };
+    pub static TABLE: [Slot; SLOTS] = [EMPTY; SLOTS];
+
+    /// claim a slot for the calling worker thread
+    pub fn claim(cfg: &str, plan: &str) -> Option<usize> {
+        for (i, s) in TABLE.iter().enumerate() {
+            if s.busy.compare_exchange(false, true, Relaxed, Relaxed).is_ok() {
+                s.cfg_ptr.store(cfg.as_ptr() as usize, Relaxed);
+                s.cfg_len.store(cfg.len(), Relaxed);
+                s.plan_ptr.store(plan.as_ptr() as usize, Relaxed);
+                s.plan_len.store(plan.len(), Relaxed);
+                s.op_len.store(0, Relaxed);
+                return Some(i);
+            }
+        }
+        None
+    }
+    pub fn release(i: Option<usize>) {
+        if let Some(i) = i {
+            TABLE[i].op_len.store(0, Relaxed);
+            TABLE[i].busy.store(false, Relaxed);
+        }
+    }
+    #[inline]
+    pub fn at(i: Option<usize>, op: &'static str, ai: usize, bi: usize, ci: usize, aux: u64) {
+        if let Some(i) = i {
+            let s = &TABLE[i];
+            s.op_ptr.store(op.as_ptr() as usize, Relaxed);
+            s.op_len.store(op.len(), Relaxed);
+            s.ai.store(ai as u64, Relaxed);
+            s.bi.store(bi as u64, Relaxed);
+            s.ci.store(ci as u64, Relaxed);
+            s.aux.store(aux, Relaxed);
+            s.tick.fetch_add(1, Relaxed);
+        }
+    }
+
+    extern "C" {
+        fn signal(signum: i32, handler: usize) -> usize;
+        fn write(fd: i32, buf: *const u8, count: usize) -> isize;
+        fn _exit(status: i32) -> !;
+    }
+
+    fn put(buf: &mut [u8; 1024], n: &mut usize, bytes: &[u8]) {
+        for &b in bytes {
+            if *n < buf.len() {
+                buf[*n] = if b == b'\n' { b' ' } else { b };
+                *n += 1;
+            }
+        }
+    }
+    fn put_num(buf: &mut [u8; 1024], n: &mut usize, mut v: u64) {
+        let mut tmp = [0u8; 20];
+        let mut k = 0;
+        if v == 0 {
+            tmp[0] = b'0';
+            k = 1;
+        }
+        while v > 0 {
+            tmp[k] = b'0' + (v % 10) as u8;
+            v /= 10;
+            k += 1;
+        }
+        for i in (0..k).rev() {
+            put(buf, n, &tmp[i..i + 1]);
+        }
+    }
+    /// print one line per busy slot (async-signal-safe: no allocation, no locks)
+    pub fn dump(tag: &[u8], only: Option<usize>) {
+        for (i, s) in TABLE.iter().enumerate() {
+            if !s.busy.load(Relaxed) || s.op_len.load(Relaxed) == 0 {
+                continue;
+            }
+            if let Some(o) = only {
+                if o != i {
+                    continue;
+                }
+            }
+            let mut buf = [0u8; 1024];
+            let mut n = 0usize;
+            put(&mut buf, &mut n, tag);
+            for (p, l) in [(&s.cfg_ptr, &s.cfg_len), (&s.plan_ptr, &s.plan_len), (&s.op_ptr, &s.op_len)] {
+                put(&mut buf, &mut n, b"|");
+                let (p, l) = (p.load(Relaxed), l.load(Relaxed));
+                if p != 0 && l < 400 {
+                    let sl = unsafe { core::slice::from_raw_parts(p as *const u8, l) };
+                    put(&mut buf, &mut n, sl);
+                }
+            }
+            for v in [&s.ai, &s.bi, &s.ci, &s.aux] {
+                put(&mut buf, &mut n, b"|");
+                put_num(&mut buf, &mut n, v.load(Relaxed));
+            }
+            if n < buf.len() {
+                buf[n] = b'\n';
+                n += 1;
+            }
+            unsafe {
+                write(2, buf.as_ptr(), n);
+            }
+        }
+    }
+    extern "C" fn on_signal(_sig: i32) {
+        dump(b"CRASH-AT", None);
+        unsafe { _exit(70) }
+    }
+    /// install the crash handlers and start the hang watchdog
+    pub fn install(hang_after_s: u64) {
+        unsafe {
+            for sig in [6, 4, 7, 8, 11] {
+                signal(sig, on_signal as usize);
+            }
+        }
+        std::thread::spawn(move || {
+            let mut last: Vec<(u64, std::time::Instant)> = (0..SLOTS).map(|_| (0, std::time::Instant::now())).collect();
+            loop {
+                std::thread::sleep(std::time::Duration::from_secs(2));
+                for (i, s) in TABLE.iter().enumerate() {
+                    let t = s.tick.load(Relaxed);
+                    if !s.busy.load(Relaxed) || s.op_len.load(Relaxed) == 0 || t != last[i].0 {
+                        last[i] = (t, std::time::Instant::now());
+                        continue;
+                    }
+                    if last[i].1.elapsed().as_secs() >= hang_after_s {
+                        dump(b"HANG-AT", Some(i));
+                        unsafe { _exit(71) }
+                    }
+                }
+            }
+        });
     }
 }
